@@ -447,3 +447,96 @@ Proof.
       unfold out_rst_only. destruct res; [exact I | apply D3; [exact Ec | left; reflexivity] |
                                           apply D3; [exact Ec | right; reflexivity]].
 Qed.
+
+(* ---- the TCP header is at least 20 octets ---- *)
+Lemma fold_sack_nonneg l acc : 0 <= acc ->
+  0 <= fold_left (fun acc (o : option (Z * Z)) => match o with Some _ => acc + 8 | None => acc end) l acc.
+Proof.
+  revert acc. induction l as [|o l IH]; intros acc H; cbn [fold_left]; [exact H|]. apply IH. destruct o; lia.
+Qed.
+
+Lemma repr_header_len_ge r : 20 <= repr_header_len r.
+Proof.
+  unfold repr_header_len, wtcp_HEADER_LEN.
+  pose proof (fold_sack_nonneg (r_sack_ranges r) 0 ltac:(lia)) as Hs.
+  set (srl := fold_left _ (r_sack_ranges r) 0) in *.
+  repeat match goal with |- context [if ?c then _ else _] => destruct c end; lia.
+Qed.
+
+(* ---- the branch tags of a dispatch that sent a segment: the last tag is the model's
+   is_keep_alive decision (245 / 246), every other tag is below 245 ---- *)
+Lemma dispatch_timers_tag cx s s1 t : tcp_dispatch_timers cx s = Ok (s1, t) -> t < 245.
+Proof.
+  unfold tcp_dispatch_timers. intros H.
+  set (s0 := if is_some (s_remote_last_ts s) then s else upd_remote_last_ts s (Some (cx_now cx))) in *.
+  destruct (tcp_timed_out s0 (cx_now cx)); [inversion H; lia|].
+  destruct (timer_should_retransmit (s_timer s0) (cx_now cx)); [|inversion H; lia].
+  apply obind_ok_inv in H. destruct H as (fl & _ & H).
+  destruct (s_timer s0); cbv beta iota zeta in H; inversion H; lia.
+Qed.
+
+Lemma dispatch_decide_tag cx s s2 go t : tcp_dispatch_decide cx s = Ok (s2, go, t) -> t < 245.
+Proof.
+  unfold tcp_dispatch_decide. intros H.
+  apply obind_ok_inv in H. destruct H as (stt & _ & H).
+  destruct stt; [inversion H; lia|].
+  destruct (_ && _); [inversion H; lia|].
+  apply obind_ok_inv in H. destruct H as (wtu & _ & H).
+  des_all H; inversion H; lia.
+Qed.
+
+Lemma build_data_tag cx s repr s' orepr zwp tg :
+  tcp_dispatch_build_data cx s repr = Ok (s', orepr, zwp, tg) -> tg < 245.
+Proof.
+  unfold tcp_dispatch_build_data. intros H.
+  apply obind_ok_inv in H. destruct H as (ol & _ & H).
+  apply obind_ok_inv in H. destruct H as (lm & _ & H).
+  apply obind_ok_inv in H. destruct H as (((((s1 & r1) & o1) & z1) & t1) & H1 & H).
+  cbv beta iota zeta in H. inversion H; subst; clear H.
+  des1 H1.
+  - inversion H1; subst. lia.
+  - repeat (apply obind_ok_inv in H1; destruct H1 as (? & _ & H1)). inversion H1; subst.
+    match goal with |- (if ?c then _ else _) < _ => destruct c end; lia.
+Qed.
+
+Lemma dispatch_build_tag cx s t s' orepr zwp ka tg :
+  tcp_dispatch_build cx s t = Ok (s', orepr, zwp, ka, tg) -> tg < 245.
+Proof.
+  unfold tcp_dispatch_build. intros H.
+  apply obind_ok_inv in H. destruct H as ((((s1 & o1) & z1) & t1) & H1 & H).
+  cbv beta iota zeta in H.
+  assert (Ht : t1 < 245).
+  { destruct (s_state s); try (inversion H1; lia); try (eapply build_data_tag; exact H1).
+    destruct (s_syn_unacked_in_fin_wait s); [inversion H1; lia | eapply build_data_tag; exact H1]. }
+  destruct o1 as [repr1|]; [|inversion H; subst; exact Ht].
+  apply obind_ok_inv in H. destruct H as (repr3 & _ & H). inversion H; subst. exact Ht.
+Qed.
+
+Lemma dispatch_finish_tag cx s repr zwp ka : snd (tcp_dispatch_finish cx s repr zwp ka) < 245.
+Proof.
+  unfold tcp_dispatch_finish.
+  repeat match goal with
+  | |- context [if ?c then _ else _] => destruct c
+  end; cbn [snd]; lia.
+Qed.
+
+Lemma dispatch_sent_tags cx s ok s' p tags :
+  tcp_dispatch cx s ok = Ok (s', DSent p, tags) ->
+  exists kam : bool, forall t, In t tags -> t = (if kam then 245 else 246) \/ t < 245.
+Proof.
+  unfold tcp_dispatch. intros H.
+  destruct (s_tuple s) as [t|]; [|inversion H].
+  destruct (negb (tu_local_addr t =? cx_addr cx)); [inversion H|].
+  apply obind_ok_inv in H. destruct H as ((s1 & t1) & H1 & H).
+  apply obind_ok_inv in H. destruct H as (((s2 & go) & t2) & H2 & H).
+  destruct (negb go); [inversion H|].
+  apply obind_ok_inv in H. destruct H as (((((s3 & orepr) & zwp) & ka) & t3) & H3 & H).
+  destruct orepr as [repr|]; [|inversion H].
+  destruct (negb ok); [inversion H|].
+  pose proof (dispatch_finish_tag cx s3 repr zwp ka) as H4.
+  destruct (tcp_dispatch_finish cx s3 repr zwp ka) as (s4, t4). cbn [snd] in H4.
+  inversion H; subst; clear H. exists ka.
+  pose proof (dispatch_timers_tag _ _ _ _ H1). pose proof (dispatch_decide_tag _ _ _ _ _ H2).
+  pose proof (dispatch_build_tag _ _ _ _ _ _ _ _ H3).
+  intros t0 [<- | [<- | [<- | [<- | [<- | []]]]]]; auto.
+Qed.
